@@ -25,8 +25,8 @@ fn main() {
             match lsmv::props::spec(id) {
                 Some(spec) => {
                     let mut code = lsmv::runner::run_history_check(&spec, tier, seed);
-                    if id == "C20" && tier == "thorough" && code == 0 {
-                        let (c, extra) = lsmv::special::c20_crash_stage(seed);
+                    if id == "C20" && code == 0 {
+                        let (c, extra) = lsmv::special::c20_crash_stage(seed, tier == "thorough");
                         code = c;
                         // fold the stage into the evidence file
                         let p = lsmv::util::verif_root().join("evidence/C20.json");
@@ -69,7 +69,7 @@ fn main() {
             }
             let id = args[2].as_str();
             let is_special_kind = std::fs::read_to_string(&args[3])
-                .map(|t| t.contains("\"kind\": \"crash-reclaim\""))
+                .map(|t| t.contains("\"kind\": \"crash-reclaim\"") || t.contains("\"kind\": \"fault-reclaim\""))
                 .unwrap_or(false);
             match lsmv::props::spec(id).filter(|_| !is_special_kind) {
                 Some(spec) => lsmv::runner::replay_history(&spec, Path::new(&args[3])),
